@@ -249,3 +249,54 @@ pub(crate) fn k_hdr_write_crc8_gate() {
     vk_assert!(sink.len == 3 && sink.data[0] == b0 && sink.data[1] == b1, "header bytes delivered unchanged");
     vk_assert!(sink.data[2] == spec::crc8_step(spec::crc8_step(0, b0), b1), "last byte is the CRC-8 (RFC polynomial) of the header bytes");
 }
+
+// ------------------------------------------------------------------ structural residual parser (C17)
+//
+// stream::read_subframe / Residuals::from_reader build Vec-of-Vec structures through
+// `(0..n).map(..).collect::<Result<Vec<_>, _>>()`; CBMC does not get through symbolic execution of
+// that even for a 3-sample verbatim subframe (measured: > 5 min in symex), so the positive side
+// (parse -> decode/write identity) is NOT decided.  What is decided is the rejection rule, which
+// returns before any collection is built:
+// contract: Residuals::from_reader => Err whenever the coding method is reserved or RFC 9639 §9.2.7
+// forbids the partition order for the block — the same inputs the streaming decoder rejects
+// (K-res_total_*), so the two parsers agree on them.  [measured: that does not finish either; not registered]
+// Subframe::decode (Box<dyn Iterator> over flat_map) does not finish either (> 5 min).
+use crate::verif_k::tape::{K_S, K_U, K_UN1};
+use crate::verif_k::specenc;
+
+fn any_i64_within(bits: u32) -> i64 {
+    let v: i64 = kani::any();
+    kani::assume(spec::fits(v, bits));
+    v
+}
+
+// contract: write_subframe on a VERBATIM / FIXED structure emits the RFC 9639 field sequence
+#[kani::proof]
+#[kani::unwind(5)]
+pub(crate) fn k_struct_write_fixed1() {
+    let bps: u32 = kani::any();
+    kani::assume(bps >= 4 && bps <= 32);
+    let x0 = any_i64_within(bps);
+    let r = [any_i64_within(31), any_i64_within(31)];
+    let k: u32 = kani::any();
+    kani::assume(k < 15);
+    kani::assume(specenc::partition_valid(specenc::PKind::Rice, 0, k, &r));
+    let sub: Subframe<i32> = Subframe::Fixed {
+        order: 1,
+        warm_up: vec![x0 as i32],
+        residuals: Residuals::Method0 {
+            partitions: vec![ResidualPartition::Standard { rice: BitCount::<0b1111>::try_from(k).unwrap(), residuals: vec![r[0] as i32, r[1] as i32] }],
+        },
+        wasted_bps: 0,
+    };
+    let mut out: Tape<16> = Tape::new();
+    let w = write_subframe::<32, _, i32>(&mut out, SignedBitCount::<32>::try_from(bps).unwrap(), &sub);
+    vk_assert!(w.is_ok(), "serialising a well-formed structure failed");
+    let mut want: Tape<16> = Tape::new();
+    specenc::gen_subframe_header(&mut want, specenc::t_fixed(1), false, 0);
+    want.preload(K_S, bps, x0 as u64);
+    specenc::gen_residuals(&mut want, 0, 0, 1, &r, &[specenc::PKind::Rice], &[k]);
+    vk_assert!(out.len == want.len, "serialised subframe has a different number of fields than the RFC coding");
+    macro_rules! same { ($($i:expr),*) => { $( if $i < want.len { vk_assert!(out.f[$i] == want.f[$i], "serialised subframe differs from the RFC 9639 coding of the structure"); } )* } }
+    same!(0, 1, 2, 3, 4, 5, 6, 7, 8, 9, 10, 11, 12, 13, 14, 15);
+}
